@@ -643,6 +643,16 @@ func (E *Engine) encodeLemmas(p string) (enc *FnEnc, err error) {
 			hasTable = true
 		}
 	}
+	for _, b := range E.CS.Builtins {
+		if hasProp(b.Props, p) {
+			hasTable = true
+		}
+	}
+	for _, sl := range E.CS.Slots {
+		if hasProp(sl.Props, p) {
+			hasTable = true
+		}
+	}
 	if len(ls) == 0 && !hasTable {
 		return nil, nil
 	}
@@ -672,6 +682,7 @@ func (E *Engine) encodeLemmas(p string) (enc *FnEnc, err error) {
 	E.tableObligations(p, enc)
 	E.stableObligations(p, enc)
 	E.slotObligations(p, enc)
+	E.builtinObligations(p, enc)
 	E.confinementObligations(p, enc)
 	E.globalsObligations(p, enc)
 	return enc, nil
